@@ -251,6 +251,7 @@ double GammaQcf(double x, double a)
 		d	= 1.0 / d;
 		del = d * c;
 		h *= del;
+		i++;
 	}
 	return exp(-x + a * log(x) - gln) * h;
 }
